@@ -19,8 +19,9 @@ def run():
         'a reordering bug that needs a specific hardware interleaving inside one yield-free region is out of reach of the schedule controller'])
     c.rule = ('forced schedules through the verif yield points: for ordered pairs (A, B) of operations on a prepared store and every '
               'yield point p of A, thread A is paused at p, thread B runs (150 ms to finish, else it is blocked), A is released; the replies '
-              'and the battery afterwards must equal the model\'s serial execution (A;B when p lies inside A\'s write transaction, with a '
-              'writer B blocked and a reader B answering from the state before A; B after A when p is past the commit). Plus a 16-thread '
+              'and the battery afterwards must be those of a serial execution on the real store (either order for two store calls; for a '
+              'query B the state before A while A is inside its transaction and the state after A once it has committed, never waiting); the '
+              'model\'s serial executions are compared with the real ones (correspondence). Plus a 16-thread '
               'randomised stress run as support. non-trivial = distinct (A, B, point) whose pause point was really reached')
     c.setup()
     c.prove()
@@ -62,6 +63,10 @@ def run():
                 pairs = rng.sample(pairs, min(10, len(pairs)))
             else:
                 pairs = rng.sample(pairs, min(40, len(pairs)))
+            # always: a deletion request racing with the (not yet stored) event it names
+            cov = g.new_event(kind=1, pk=AUTHORS[0], t=100, content=b'covered')
+            dreq = g.new_event(kind=5, pk=AUTHORS[0], t=150, tags=[[b'e', cov['id'].hex().encode()]], content=b'')
+            pairs += [({'op': 'store', 'ev': dreq}, {'op': 'store', 'ev': cov}), ({'op': 'store', 'ev': cov}, {'op': 'store', 'ev': dreq})]
             for a, b in pairs:
                 scen.append((pre, a, b))
         # phase 1: trace A on the prepared store
@@ -112,31 +117,26 @@ def run():
             meta.append(dict(start=start, ci=ci, nb=len(bat), pre=pre, a=a, b=b, bline=bline, p=p, writer=writer, bat=bat))
         out = c.worker.run(lines)
         c.evaluations += len(tests)
-        # model: serial orders
+        # the two serial executions, on the real store (reference) and on the model (correspondence)
         mlines, mmeta = [], []
         for t in meta:
             prel = [Runner.op_line(o) for o in t['pre']]
             al = Runner.op_line(t['a'])
-            if t['p'] in AFTER or t['writer']:
-                seq = [al, t['bline']]          # A;B
-                order = 'AB'
-            else:
-                seq = [t['bline'], al]          # the reader answers from the state before A
-                order = 'BA'
-            if t['p'] in AFTER:
-                order = 'AB'
-            s0 = len(mlines)
-            mlines += ['NEW %s -' % os.path.join(base, 'serial%d' % len(mmeta))] + prel + seq + t['bat']
-            mmeta.append((s0 + 1 + len(prel), order))
-        # the serial execution on the real store is the reference; the model's serial execution is
-        # compared with it (correspondence; queries are C05's business)
+            pos = {}
+            for order, seq in (('AB', [al, t['bline']]), ('BA', [t['bline'], al])):
+                s0 = len(mlines)
+                mlines += ['NEW %s -' % os.path.join(base, 'serial%d%s' % (len(mmeta), order))] + prel + seq + t['bat']
+                pos[order] = s0 + 1 + len(prel)
+            mmeta.append(pos)
         mo_model = c.model.run(mlines)
         mo = [strip_now(x) for x in c.worker.run(mlines)]
         for l, x, y in zip(mlines, mo, mo_model):
             if x != y and not l.startswith('FND'):
                 c.violation('corr', 'serial execution: %s: impl %s model %s' % (l[:40], x[:40], y[:40]), [l], found=False)
                 break
-        for t, (mi, order) in zip(meta, mmeta):
+        norm = lambda l, x: ' '.join(y for y in x.split(' ') if not y.startswith('end=')) if l.split(' ')[0] == 'STA' else x
+        cls = lambda x: x.split(' ')[0]
+        for t, pos in zip(meta, mmeta):
             r = out[t['ci']]
             rep = lines[t['start']:t['ci'] + 1]
             c.count('point:' + t['p'])
@@ -153,32 +153,33 @@ def run():
             if 'HUNG' in r or 'panic' in r:
                 c.violation('oracle', 'a thread hung or panicked under the forced schedule: %s' % r[:100], rep)
                 continue
-            ma, mb = (mo[mi], mo[mi + 1]) if order == 'AB' else (mo[mi + 1], mo[mi])
-            mbat = mo[mi + 2:mi + 2 + t['nb']]
-            wbat = [strip_now(x) for x in out[t['ci'] + 1:t['ci'] + 1 + t['nb']]]
-            norm = lambda l, x: ' '.join(y for y in x.split(' ') if not y.startswith('end=')) if l == 'STA' else x
-            if t['writer'] and t['p'] in INSIDE_TXN and not blocked:
-                c.violation('oracle', 'writer B ran to completion while A was paused inside its write transaction at %s' % t['p'], rep)
-                continue
-            if not t['writer'] and blocked:
-                c.violation('oracle', 'a reader was blocked by a writer paused at %s' % t['p'], rep)
-                continue
-            same_ab = (ra.split(' ')[0] == ma.split(' ')[0]) and (norm(t['bline'], rb).split(' ')[0] == norm(t['bline'], strip_now(mb)).split(' ')[0])
+            wbat = [norm(l, strip_now(x)) for l, x in zip(t['bat'], out[t['ci'] + 1:t['ci'] + 1 + t['nb']])]
+            serial = {}
+            for order, mi in pos.items():
+                ma, mb = (mo[mi], mo[mi + 1]) if order == 'AB' else (mo[mi + 1], mo[mi])
+                serial[order] = (ma, mb, [norm(l, x) for l, x in zip(t['bat'], mo[mi + 2:mi + 2 + t['nb']])])
             if t['writer']:
-                okr = same_ab
+                # two overlapping store calls: SOME serial order must explain both replies and the state
+                # afterwards (a call refused without ever taking the writer lock is fine if that holds)
+                allowed = ['AB', 'BA']
+                okr = [o for o in allowed if cls(ra) == cls(serial[o][0]) and cls(rb) == cls(serial[o][1]) and wbat == serial[o][2]]
+                c.count('writer_blocked' if blocked else 'writer_not_blocked')
             else:
-                okr = (ra.split(' ')[0] == ma.split(' ')[0]) and norm(t['bline'], rb) == norm(t['bline'], strip_now(mb))
+                # a query while A is inside its transaction answers from the state before A (no dirty
+                # read); once A has committed it answers from the state after A; it never waits
+                if blocked:
+                    c.violation('oracle', 'a reader was blocked by a writer paused at %s' % t['p'], rep)
+                    continue
+                allowed = ['AB'] if t['p'] in AFTER else ['BA']
+                okr = [o for o in allowed if cls(ra) == cls(serial[o][0]) and norm(t['bline'], rb) == norm(t['bline'], serial[o][1]) and wbat == serial[o][2]]
             if not okr:
-                c.violation('oracle', 'schedule A paused at %s: replies A=%s B=%s are not those of the serial order %s (A=%s B=%s)' % (
-                    t['p'], ra[:30], rb[:40], order, ma[:30], mb[:40]), rep)
-                continue
-            if [norm(l, x) for l, x in zip(t['bat'], wbat)] != [norm(l, x) for l, x in zip(t['bat'], mbat)]:
-                # offsets may differ between the serial model and the real interleaving only in OFF/end; the battery has neither
-                diff = [(l, x, y) for l, x, y in zip(t['bat'], wbat, mbat) if norm(l, x) != norm(l, y)][:2]
-                c.violation('oracle', 'state after the schedule (A paused at %s) is not the serial result: %s' % (t['p'], [(l[:12], x[:30], y[:30]) for l, x, y in diff]), rep)
+                o = allowed[0]
+                diff = [(l[:12], x[:30], y[:30]) for l, x, y in zip(t['bat'], wbat, serial[o][2]) if x != y][:2]
+                c.violation('oracle', 'schedule A paused at %s: replies A=%s B=%s and the state afterwards are those of no serial order (%s: A=%s B=%s%s)' % (
+                    t['p'], ra[:30], rb[:40], o, serial[o][0][:30], serial[o][1][:40], (' state differs: %s' % diff) if diff else ''), rep)
                 continue
             c.nontriv((t['p'], lines[t['ci']][:200]))
-            c.sample({'schedule': lines[t['ci']][:160], 'impl': r[:120], 'serial_order': order}, limit=3)
+            c.sample({'schedule': lines[t['ci']][:160], 'impl': r[:120], 'serial_order': okr[0]}, limit=3)
         # ---- stress (support)
         sl = []
         for k in range(3 if Q else 30):
